@@ -262,10 +262,6 @@ Definition py_isspace (c:N) : bool := inr c space_tab.''')
     # what str.splitlines considers a separator on this interpreter
     seps = [c for c in range(0x110000) if len(('a' + chr(c) + 'b').splitlines()) == 2]
     out.append('Definition py_splitlines_seps : list N := [%s].' % ';'.join(map(str, seps)))
-    # coding cookie patterns used by python_bytes_to_unicode
-    cookies = inline_regex_literals(utils.python_bytes_to_unicode, callee=('search', 'match'))
-    meta['cookie_patterns'] = [c.decode('latin-1') if isinstance(c, bytes) else c for c in cookies]
-    out.append('Definition cookie_res : list re := [%s].' % ';'.join('(%s)' % translate_regex(c) for c in cookies))
     write_if_changed(os.path.join(GEN, 'Tables.v'), '\n'.join(out) + '\n')
     return meta
 
